@@ -112,11 +112,12 @@ PLAN["C09"] = dict(
 
 PLAN["C10"] = dict(
     level="exploration",
-    engines=["resize event monitor over orchestrated (gated) and free-run resizes (native)", "stamp arithmetic over all 31 table lengths"],
+    engines=["resize event monitor over orchestrated (gated) and free-run resizes (native)", "the same monitor over serial-scheduler schedules of growing maps", "stamp arithmetic over all 31 table lengths"],
     assumptions=["resize events are emitted by hooks at points ordered before the next generation can begin"],
     require={"help_transfer_joins_orchestrated": 6, "stamp_lengths": 31, "orch_generations_multi_helper": 5, "generations": 50, "generations_multi_helper": 3, "ladder_runs": 6, "ladder_growths": 30},
     jobs=lambda t: [
         J("resize", "native", ["c10", "--rounds", q(t, 700, 400000)], shards=q(t, 8, 12), budget_s=q(t, 40, 480), parallel=q(t, 8, 12)),
+        J("serial", "native", ["c10", "--part", "serial", "--schedules", q(t, 3000, 4000000)], shards=q(t, 8, 16), budget_s=q(t, 25, 240), parallel=q(t, 8, 16)),
     ],
 )
 
